@@ -27,7 +27,7 @@ KNOBS = [dict(min_nodes_to_collapse=a, naa_to_collapse=b) for a, b in
 # aggressive settings (thorough tier only): open finding C01-collapse-knobs-aggressive
 KNOBS_WILD = [dict(min_nodes_to_collapse=a, naa_to_collapse=b) for a, b in
     ((1, 1), (2, 2), (3, 2), (2, 3), (1, 5))]
-FAMILIES = ['small', 'small', 'small', 'multi', 'as', 'fusion', 'circ']
+FAMILIES = ['small', 'small', 'small', 'multi', 'as', 'fusion', 'circ', 'fuscirc']
 
 
 def strategy(tier):
@@ -47,7 +47,7 @@ def strategy(tier):
 def tolerated(case, out, bucket):
     """ open findings (known_findings.json) by signature """
     if bucket.startswith('crash:ValueError@svgraph/ThreeFrameTVG.py:expand_alignments') \
-            and case['family'] == 'fusion':
+            and any(r['kind'] == 'fusion' for r in case['records']):
         return 'C01-fusion-expand-alignments-crash'
     if bucket.startswith('knobs-changed:'):
         a, b = bucket.split(':')[1].split(',')
